@@ -10,7 +10,7 @@
 #define HSLOTS (1u << 20)
 static uint64_t hset[HSLOTS];
 static unsigned long long cases, nontrivial, distinct, excluded;
-static unsigned long long class_counts[32];
+static unsigned long long class_counts[64];
 static int inited;
 static unsigned runflags;
 
@@ -26,7 +26,7 @@ static void dump_stats(void)
             cases, nontrivial, distinct, excluded);
     int first = 1;
     if (vp_executor.class_names)
-        for (int b = 0; b < 32 && vp_executor.class_names[b]; b++) {
+        for (int b = 0; b < 64 && vp_executor.class_names[b]; b++) {
             fprintf(f, "%s\"%s\": %llu", first ? "" : ", ", vp_executor.class_names[b], class_counts[b]);
             first = 0;
         }
@@ -60,7 +60,7 @@ int LLVMFuzzerTestOneInput(const uint8_t *data, size_t size)
     int r = vp_executor.run(data, size, &rep, runflags);
     cases++;
     excluded += rep.excluded;
-    for (int b = 0; b < 32; b++) if (rep.classes & (1u << b)) class_counts[b]++;
+    for (int b = 0; b < 64; b++) if (rep.classes & (1ull << b)) class_counts[b]++;
     if (rep.nontrivial && r == 0) { nontrivial++; note_hash(rep.case_hash); }
     free(rep.render);
     if (r != 0) {
